@@ -97,15 +97,43 @@ def _db(pid, title, prefixes, technique, text, assumptions, mods, comps=("lsm",)
         "trusted_base": DB_TB, "assumptions": assumptions,
     }
 
-_db("C01", "Reads return the latest committed write", ["c01:", "c09:"],
-    "Lean 4 refinement proof of the LSM read path + history differential against a BTreeMap oracle",
-    "under construction", ["single client; histories are sampled"], [])
-_db("C07", "Compaction and flushing are invisible to readers", ["c07:", "c09:"],
-    "Lean 4 step-invariance proof + full dumps before/after every compaction", "under construction", [], [])
-_db("C10", "The reported LSM shape is always well formed", ["c10:"],
-    "Lean 4 invariant proof + structural dump check after every quiescence/reopen", "under construction", [], [])
-_db("C03", "A snapshot or iterator sees exactly the state at its creation", ["c03:", "c09:"],
-    "Lean 4 proof + frozen-oracle comparison of live snapshots", "under construction", [], [])
+LSM_TIE = ("tied to the code on every run by trace validation: generated single-client histories run on the real database (SimFs, tiny memtable/file/block sizes, both log-reuse settings, options re-drawn at reopen); every flush, trivial move and table compaction the real worker performs is recorded with the version's files and the tables' entries and checked against the model's transition relation (stepFlush / stepTrivialMove / validCompaction + drop rule), consecutive transitions must chain, every quiescent state dump must satisfy the executable invariant invB and the model's read path on the dumped state must agree with the real gets; independently every get/scan is compared with a BTreeMap oracle and frozen snapshot copies")
+LSM_TB = DB_TB + [
+    "recovery (close+reopen) is not a step of the LSM model: reopened states are re-validated (invariant, shape, oracle contents) and the durable side is covered by the C02 monitor",
+    "find_file_with_upper_bound_range is a binary search; the model takes the first file whose largest key is not below the target (equal under the invariant's level sortedness)",
+]
+PROPS["C01"] = {
+    "level": "proof", "title": "Reads return the latest committed write, wherever the data lives",
+    "lean_modules": ["Rain.Props.Lsm"], "components": ["lsm"], "sig_prefixes": ["c01:", "c07:", "c10:", "c09:"],
+    "technique": "Lean 4 refinement proof (DB::get = newest entry at or below the bound over memtable / immutable memtable / level-0 files / deeper levels; every transition preserves invariant and views; C01_reads_latest for every action list) + trace validation of the real worker's transitions against the proved relation + BTreeMap oracle",
+    "level_text": "Machine-checked proof over the LSM model (read path exactly as Version::get searches, all transitions guarded only by validity predicates, no size thresholds, hence every DbOptions): for every history a get at the latest sequence number returns the most recent write. " + LSM_TIE + ".",
+    "design_ref": "5 (C01)", "trusted_base": LSM_TB,
+    "assumptions": ["single client (concurrency is C05/C06)", "Table::get meets its specification lookupSorted (proved for the table model in C13, filters never cut a lookup short: C14)"],
+}
+PROPS["C07"] = {
+    "level": "proof", "title": "Compaction and flushing are invisible to readers",
+    "lean_modules": ["Rain.Props.Lsm"], "components": ["lsm"], "sig_prefixes": ["c07:", "c10:", "c09:"],
+    "technique": "Lean 4 proof that rotation, flush (to any admissible level), table compaction (any admissible inputs, any cut of the output, drop rule with any smallest snapshot, tombstone dropping at the base level) and trivial move preserve every view at or above the smallest snapshot + validity predicates evaluated on every transition of the real worker + full dumps before/after every compaction",
+    "level_text": "Machine-checked proof (rearrange_view, C07_invisible) over the LSM model for every state satisfying the invariant and every valid transition. " + LSM_TIE + "; full contents (scan + gets at the latest state and at every live snapshot) are dumped before and after every compact_range and after background quiescence.",
+    "design_ref": "5 (C07)", "trusted_base": LSM_TB,
+    "assumptions": ["a transition outside the validity predicates is reported as a violation even if no wrong read was observed (the proof no longer covers it)"],
+}
+PROPS["C10"] = {
+    "level": "proof", "title": "The reported LSM shape is always well formed",
+    "lean_modules": ["Rain.Props.Lsm"], "components": ["lsm"], "sig_prefixes": ["c10:", "c09:"],
+    "technique": "Lean 4 invariant proof (step_inv, C10_wellformed_reachable: ordered disjoint levels, bounds = first/last entry, distinct file numbers, for every reachable state) + executable invariant evaluated on dumped states + structural cross-check of SSTables/NumFilesAtLevel against the table files after every quiescence and reopen",
+    "level_text": "Machine-checked proof that every valid transition preserves the invariant whose content is exactly the property's statement. " + LSM_TIE + "; after every quiescent step and every reopen the dump is cross-checked against a full scan of each table file and the descriptors.",
+    "design_ref": "5 (C10)", "trusted_base": LSM_TB,
+    "assumptions": ["the structured dump (hook) is used instead of the lossy SSTables debug string for non-UTF-8 keys; NumFilesAtLevel is compared with it"],
+}
+PROPS["C03"] = {
+    "level": "proof", "title": "A snapshot or iterator sees exactly the state at its creation, forever",
+    "lean_modules": ["Rain.Props.Lsm", "Rain.Props.C04", "Rain.Props.Proto"], "components": ["lsm"], "sig_prefixes": ["c03:", "c07:", "c09:"],
+    "technique": "Lean 4 proofs: C03_snapshot_stable (a get at a snapshot is unchanged by any later writes, rotations, flushes, trivial moves and compactions that respect the snapshot), C04_visible_is_view (iteration and get agree), C05_cut_stable (a cut keeps seeing the same memtable entries) + frozen-oracle comparison of live snapshots and kept-open iterators across flushes, compactions and file deletion on the real database",
+    "level_text": "Machine-checked proofs over the LSM, iterator and protocol models for every later action list and every number of simultaneously live snapshots. " + LSM_TIE + "; histories take snapshots and open iterators at random points and keep them across later writes, flushes, automatic/manual/seek-triggered compactions and obsolete-file deletion; every live snapshot is re-read (gets + scans) against its frozen oracle copy, kept iterators are scanned completely when closed.",
+    "design_ref": "5 (C03)", "trusted_base": LSM_TB,
+    "assumptions": ["the smallest-snapshot value a compaction uses is at most every live snapshot (checked on every recorded compaction: smallest_snapshot is part of the event and of validCompaction)", "version pinning (files of a pinned version are not deleted) is checked by the C11 directory checks"],
+}
 _db("C11", "Exactly the needed files are on disk", ["c11:"],
     "Lean 4 proof + directory listing vs state dump", "under construction", [], [])
 
@@ -143,4 +171,4 @@ PROPS["C17"] = {
 }
 
 # properties whose check is registered in MANIFEST.json
-CLAIMED = ["C04", "C06", "C12", "C13", "C14", "C17"]
+CLAIMED = ["C01", "C03", "C04", "C06", "C07", "C10", "C12", "C13", "C14", "C17"]
